@@ -18,10 +18,13 @@ Menu == <<
   [k |-> "oldpal04", packets |-> <<[skip |-> 1, count |-> 1, rgb |-> <<<<9, 9, 9>>>>], [skip |-> 3, count |-> 2, rgb |-> <<<<7, 7, 7>>, <<8, 8, 8>>>>]>>],
   [k |-> "oldpal11", packets |-> <<[skip |-> 0, count |-> 3, rgb |-> <<<<0, 63, 31>>, <<32, 1, 62>>, <<16, 47, 21>>>>]>>],
   [k |-> "oldpal11", packets |-> <<[skip |-> 4, count |-> 1, rgb |-> <<<<63, 63, 63>>>>], [skip |-> 0, count |-> 1, rgb |-> <<<<5, 6, 7>>>>]>>],
-  [k |-> "oldpal04", packets |-> <<[skip |-> 0, count |-> 0, rgb |-> [i \in 1..256 |-> <<i - 1, 255 - (i - 1), (i * 7) % 256>>]]>>]
+  [k |-> "oldpal04", packets |-> <<[skip |-> 0, count |-> 0, rgb |-> [i \in 1..256 |-> <<i - 1, 255 - (i - 1), (i * 7) % 256>>]]>>],
+  \* a hole inside a palette that still has entries 0 and n-1 (ids 0, 2, 3): index 1 is absent
+  [k |-> "oldpal04", packets |-> <<[skip |-> 0, count |-> 1, rgb |-> <<<<50, 60, 70>>>>], [skip |-> 2, count |-> 2, rgb |-> <<<<51, 61, 71>>, <<52, 62, 72>>>>]>>],
+  [k |-> "oldpal11", packets |-> <<[skip |-> 0, count |-> 2, rgb |-> <<<<5, 6, 7>>, <<8, 9, 10>>>>], [skip |-> 4, count |-> 2, rgb |-> <<<<1, 1, 1>>, <<2, 2, 2>>>>]>>]
 >>
 IsNew(i) == Menu[i].k = "pal"
-PixelAlphabet == {0, 1, 4, 5, 7, 255}
+PixelAlphabet == {0, 1, 2, 3, 4, 5, 7, 255}
 
 Hdr == [nframes |-> 1, w |-> MaxPixels, h |-> 1, depth |-> 8, tidx |-> 0, pixw |-> 1, pixh |-> 1, speed |-> 100, magic |-> 42464]
 LayerChunk == [k |-> "layer", flags |-> 1, ltype |-> 0, level |-> 0, blend |-> 0, opacity |-> 255, name |-> <<76>>, tileset |-> <<>>]
